@@ -20,7 +20,7 @@ import copy
 import json
 import os
 
-from .model import FuncInfo, set_parents, src, walk_no_defs
+from .model import FuncInfo, clone, set_parents, src, walk_no_defs
 
 HERE = os.path.dirname(os.path.abspath(__file__))
 MAX_DEPTH = 2
@@ -55,7 +55,7 @@ def _tx(stmts, mode, target, at):
         if isinstance(s, ast.Return):
             if mode == 'assign':
                 v = s.value if s.value is not None else ast.Constant(value=None)
-                a = ast.Assign(targets=[copy.deepcopy(target)], value=v)
+                a = ast.Assign(targets=[clone(target)], value=v)
                 out.append(ast.copy_location(a, s))
             elif s.value is not None and any(isinstance(w, (ast.Call, ast.Yield, ast.YieldFrom, ast.Await)) for w in ast.walk(s.value)):
                 out.append(ast.copy_location(ast.Expr(value=s.value), s))
@@ -63,8 +63,8 @@ def _tx(stmts, mode, target, at):
         if _has_return(s):
             if isinstance(s, ast.If):
                 tail = stmts[i + 1:]
-                b, _ = _tx(list(s.body) + copy.deepcopy(tail), mode, target, at)
-                o, _ = _tx(list(s.orelse) + copy.deepcopy(tail), mode, target, at)
+                b, _ = _tx(list(s.body) + clone(tail), mode, target, at)
+                o, _ = _tx(list(s.orelse) + clone(tail), mode, target, at)
                 n = ast.If(test=s.test, body=b or [ast.copy_location(ast.Pass(), s)], orelse=o)
                 out.append(ast.copy_location(n, s))
                 return out, False
@@ -81,7 +81,7 @@ def _ret_to_break(stmts, mode, target):
         if isinstance(s, ast.Return):
             if mode == 'assign':
                 v = s.value if s.value is not None else ast.Constant(value=None)
-                out.append(ast.copy_location(ast.Assign(targets=[copy.deepcopy(target)], value=v), s))
+                out.append(ast.copy_location(ast.Assign(targets=[clone(target)], value=v), s))
             elif s.value is not None and any(isinstance(w, (ast.Call, ast.Yield, ast.YieldFrom, ast.Await)) for w in ast.walk(s.value)):
                 out.append(ast.copy_location(ast.Expr(value=s.value), s))
             out.append(ast.copy_location(ast.Break(), s))
@@ -176,7 +176,7 @@ def _bind(callee, call, is_method):
         if p in bound:
             out.append((p, bound[p]))
         elif p in defaults:
-            out.append((p, copy.deepcopy(defaults[p])))
+            out.append((p, clone(defaults[p])))
         else:
             raise _NoInline(f'missing argument {p}')
     return out
@@ -222,7 +222,7 @@ def _expand(repo, caller, stmt, known, caller_names, stack, stats):
         return None
     try:
         binds = _bind(callee, call, is_method)
-        body = copy.deepcopy(_strip_doc(list(callee.orig_node.body if hasattr(callee, 'orig_node') else callee.node.body)))
+        body = clone(_strip_doc(list(callee.orig_node.body if hasattr(callee, 'orig_node') else callee.node.body)))
         # rename helper locals that clash with caller names (unless the parameter is bound to the caller's variable of the same name)
         loc_ = _locals_of(callee.node)
         same = {p for p, a in binds if isinstance(a, ast.Name) and a.id == p}
@@ -231,23 +231,34 @@ def _expand(repo, caller, stmt, known, caller_names, stack, stats):
             rn = _Renamer(mapping)
             body = [rn.visit(b) for b in body]
         pre = []
+        from .normalize import _Subst, _path, _stores
+        rebinds = _stores(callee.node)
+        subst = {}
         for p, a in binds:
             if p in same:
                 continue
+            if _path(a) and rebinds.get(p, 0) <= 2 and not isinstance(a, ast.Constant):
+                # the parameter is never re-bound in the helper and the argument is an access path: the helper's code is shown in
+                # terms of the caller's expression (`fds.append(fd)` with fds=self._read reads `self._read.append(fd)`)
+                subst[mapping.get(p, p)] = a
+                continue
             asg = ast.Assign(targets=[ast.Name(id=mapping.get(p, p), ctx=ast.Store())], value=a)
             pre.append(ast.copy_location(asg, stmt))
+        if subst:
+            tr = _Subst(subst, set())
+            body = [tr.visit(b) for b in body]
         if mode == 'return':
             new = body
             if not _ends_in_return(new):
                 new = new + [ast.copy_location(ast.Return(value=ast.Constant(value=None)), stmt)]
         else:
             try:
-                new, done = _tx(copy.deepcopy(body), mode, target, stmt)
+                new, done = _tx(clone(body), mode, target, stmt)
             except _NoInline:
                 new = [_once(_ret_to_break(body, mode, target), stmt)]
             if mode == 'assign' and not _ends_in_return(body):
                 # falling off the end returns None: only reached on paths without a return; put it first and let the returns overwrite it
-                pre.append(ast.copy_location(ast.Assign(targets=[copy.deepcopy(target)], value=ast.Constant(value=None)), stmt))
+                pre.append(ast.copy_location(ast.Assign(targets=[clone(target)], value=ast.Constant(value=None)), stmt))
         out = pre + (new or [ast.copy_location(ast.Pass(), stmt)])
         for n in out:
             ast.fix_missing_locations(n)
@@ -295,23 +306,13 @@ def apply(repo):
             if not any(isinstance(c, ast.Call) and ((isinstance(c.func, ast.Attribute) and c.func.attr in names) or (isinstance(c.func, ast.Name) and c.func.id in names))
                        for c in ast.walk(f.node)):
                 continue
-            node = copy.deepcopy(f.node)
+            node = clone(f.node)
             stats = []
             caller_names = {n.id for n in ast.walk(node) if isinstance(n, ast.Name)} | {a.arg for a in ast.walk(node) if isinstance(a, ast.arg)}
             node.body = _walk_list(repo, f, node.body, known, caller_names, [f.ref], stats)
             if not stats:
                 continue
-            ast.fix_missing_locations(node)
-            set_parents(node)
-            node._parent = getattr(f.node, '_parent', None)
-            f.orig_node = f.node
-            f.node = node
-            f._cfg = None
-            # re-index nested functions on the new tree
-            for g in list(f.nested.values()):
-                _drop(m, g)
-            f.nested = {}
-            m._nested(f, node)
+            replace_node(m, f, node)
             repo.inlined.extend(stats)
     # a helper all of whose call sites were inlined is "absorbed": rules that sweep all functions skip it
     inlined_callees = {c for _f, c in repo.inlined}
@@ -326,6 +327,35 @@ def apply(repo):
                 if isinstance(c, ast.Call) and ((isinstance(c.func, ast.Attribute) and c.func.attr == u.name) or (isinstance(c.func, ast.Name) and c.func.id == u.name)):
                     remaining += 1
         u.absorbed = remaining == 0
+
+
+def replace_node(m, f, node):
+    """Make *node* (a rewritten copy) the AST of function *f*; nested functions are re-indexed on it."""
+    ast.fix_missing_locations(node)
+    set_parents(node)
+    node._parent = getattr(f.node, '_parent', None)
+    if not hasattr(f, 'orig_node'):
+        f.orig_node = f.node
+    f.node = node
+    f._cfg = None
+    for g in list(f.nested.values()):
+        _drop(m, g)
+    f.nested = {}
+    m._nested(f, node)
+
+
+def normalise_aliases(repo):
+    from . import normalize
+    n = 0
+    for m in repo.modules.values():
+        for f in list(m.all_functions):
+            if f.parent is not None:
+                continue
+            new = normalize.apply(f.node)
+            if new is not None:
+                replace_node(m, f, new)
+                n += 1
+    repo.alias_normalised = n
 
 
 def _drop(m, g):
